@@ -2,7 +2,8 @@
 
 proof  : coq/QuadTree_Model.v (executable model of tsne::QuadTree over exact rationals, mirroring
          insert / subdivide / computeNonEdgeForces / isCorrect / getAllIndices / getDepth),
-         coq/QuadTree_Spec.v, coq/QuadTree_Proof_*.v, coq/Properties_C18.v.
+         coq/QuadTree_Spec.v, coq/QuadTree_Proof_*.v, coq/Properties_C18.v; coq/QuadTree_Float_Model.v (binary64 box
+         arithmetic in Coq primitive floats) with QuadTree_Proof_Float*.v (crack F25 as a theorem; exact on grid inputs).
 tie    : structural and exact.  harness/c18.cpp builds the REAL tree (public constructor with an
          explicit dyadic root cell + public insert() in a chosen order) and dumps every cell
          (`#define private public`); the extracted model is run on the same input; return values of
